@@ -114,12 +114,50 @@ def measure_params(draw, kind, R, D, kappa=100.0, extreme=False):
     ms = draw(st.sampled_from([1.0, 1.0, 1.0, 1.0, 1.0, 1.0, 30.0, 0.03] + ([1e8, 1e-8] if extreme else [])
                                + ([1e16, 1e-16, 1e16, 1e-16, 1e8, 1e-8] if extreme == "wide" else [])))
     if kind in ("measure", "diag_measure"):
-        return {
+        p = {
             "Lambda": draw(spd(R, D, kappa=kappa, diag=diag)) * ms,
             "nu": draw(arr((R, D))) * vs * (ms ** 0.5),
             "ln_beta": draw(arr((R,))) * draw(st.sampled_from([1.0, 1.0, 1.0, 25.0])),
         }
-    return {"Sigma": draw(spd(R, D, kappa=kappa, diag=diag)) * ms, "mu": draw(arr((R, D))) * vs * (ms ** 0.5)}
+        return _exact_structure(draw, p, "Lambda", "nu", ms)
+    p = {"Sigma": draw(spd(R, D, kappa=kappa, diag=diag)) * ms, "mu": draw(arr((R, D))) * vs * (ms ** 0.5)}
+    return _exact_structure(draw, p, "Sigma", "mu", ms)
+
+
+STRUCTURES = ["diagonal_in_full_class", "isotropic", "vector_exactly_zero", "ln_beta_exactly_zero", "identical_components",
+              "vector_with_zero_entries", "integer_valued"]
+
+
+def _exact_structure(draw, p, mkey, vkey, ms):
+    """Exact structure that element-wise random floats never produce (an eighth of the cases): exactly diagonal or isotropic
+    matrices in the full class, an exactly zero vector / log-constant, zero entries, two identical components, integer-valued
+    data.  Fast paths and 'simplifications' are typically keyed on, or only valid for, such inputs."""
+    if not draw(st.sampled_from([False] * 7 + [True])):
+        return p
+    which = draw(st.sampled_from(STRUCTURES))
+    A, v = np.array(p[mkey], float), np.array(p[vkey], float)
+    R, D = v.shape
+    if (which == "ln_beta_exactly_zero" and "ln_beta" not in p) or (which == "identical_components" and R < 2) or (which == "integer_valued" and ms != 1.0):
+        return p
+    if which == "diagonal_in_full_class":
+        A = A * np.eye(D)[None]
+    elif which == "isotropic":
+        A = np.einsum("r,ij->rij", np.einsum("rii->r", A) / D, np.eye(D))
+    elif which == "vector_exactly_zero":
+        v = np.zeros_like(v)
+    elif which == "ln_beta_exactly_zero" and "ln_beta" in p:
+        p = dict(p, ln_beta=np.zeros(R))
+    elif which == "identical_components" and R >= 2:
+        A[1], v[1] = A[0], v[0]
+    elif which == "vector_with_zero_entries":
+        v[:, 0] = 0.0
+    elif which == "integer_valued" and ms == 1.0:
+        A = np.einsum("rd,ij->rij", np.ones((R, 1)), np.eye(D))[:, :, :] * np.round(1 + np.abs(v[:, :1, None]))
+        v = np.round(v)
+    p = dict(p)
+    p[mkey], p[vkey] = A, v
+    p["_structure"] = which
+    return p
 
 
 def unit_of(kind, params):
@@ -157,6 +195,38 @@ def rescale_factor(kind, p, unit):
 
 @st.composite
 def factor_params(draw, kind, R, D, kappa=100.0):
+    p = draw(_factor_params(kind, R, D, kappa))
+    if kind in ("general", "rank_one", "linear") and draw(st.sampled_from([False] * 7 + [True])):
+        which = draw(st.sampled_from(["nu_exactly_zero", "ln_beta_exactly_zero", "diagonal_Lambda", "v_with_zero_entry", "v_parallel_to_nu",
+                                      "identical_components"]))
+        ok = True
+        if which == "nu_exactly_zero":
+            p["nu"] = np.zeros((R, D))
+        elif which == "ln_beta_exactly_zero":
+            p["ln_beta"] = np.zeros(R)
+        elif which == "diagonal_Lambda" and kind == "general":
+            p["Lambda"] = np.array(p["Lambda"], float) * np.eye(D)[None]
+        elif which == "v_with_zero_entry" and kind == "rank_one":
+            p["v"] = np.array(p["v"], float)
+            p["v"][:, 0] = 0.0
+            if D == 1:
+                ok = False
+        elif which == "v_parallel_to_nu" and kind == "rank_one":
+            p["nu"] = 0.7 * np.array(p["v"], float)
+        elif which == "identical_components" and R >= 2:
+            for k in p:
+                if isinstance(p[k], np.ndarray) and p[k].shape[:1] == (R,):
+                    p[k] = np.array(p[k], float)
+                    p[k][1] = p[k][0]
+        else:
+            ok = False
+        if ok:
+            p["_structure"] = which
+    return p
+
+
+@st.composite
+def _factor_params(draw, kind, R, D, kappa=100.0):
     if kind == "general":
         # PSD, including rank-deficient and zero precision
         rank = draw(st.integers(0, D))
@@ -218,6 +288,39 @@ def cond_params(draw, kind, R, Dx, Dy, kappa=100.0, zero_M=False):
     p["b"] = draw(arr((R, Dy)))
     p["Sigma"] = draw(spd(R, Dy, kappa=kappa, diag=diag))
     _cond_past(draw, p, R, Dy, kappa, diag)
+    if not zero_M and draw(st.sampled_from([False] * 7 + [True])):
+        # exact structure of the map / offset / noise (see _exact_structure)
+        which = draw(st.sampled_from(["M_zero_row", "M_zero_column", "M_selection", "M_symmetric", "b_exactly_zero", "noise_isotropic",
+                                      "M_identity_in_general_class", "identical_components"]))
+        M = np.array(p["M"], float)
+        ok = True
+        if which == "M_zero_row":
+            M[:, draw(st.integers(0, Dy - 1)), :] = 0.0
+        elif which == "M_zero_column":
+            M[:, :, draw(st.integers(0, Dx - 1))] = 0.0
+        elif which == "M_selection":
+            cols = draw(st.lists(st.integers(0, Dx - 1), min_size=Dy, max_size=Dy))
+            M = np.zeros_like(M)
+            for i, c_ in enumerate(cols):
+                M[:, i, c_] = 1.0
+        elif which == "M_symmetric" and Dx == Dy:
+            M = 0.5 * (M + np.swapaxes(M, 1, 2))
+        elif which == "M_identity_in_general_class" and Dx == Dy:
+            M = np.broadcast_to(np.eye(Dx), M.shape).copy()
+        elif which == "b_exactly_zero":
+            p["b"] = np.zeros((R, Dy))
+        elif which == "noise_isotropic":
+            S = np.array(p["Sigma"], float)
+            p["Sigma"] = np.einsum("r,ij->rij", np.einsum("rii->r", S) / Dy, np.eye(Dy))
+        elif which == "identical_components" and R >= 2:
+            M[1] = M[0]
+            p["b"] = np.array(p["b"], float)
+            p["b"][1] = p["b"][0]
+        else:
+            ok = False
+        if ok:
+            p["M"] = M
+            p["_structure"] = which
     return p
 
 
